@@ -238,6 +238,39 @@ R.contract(
     props=["C16"],
 )
 
+R.contract(
+    "is_better",
+    file=HLP,
+    params=dict(problem="Problem", individual="Individual", other="Individual"),
+    returns="bool",
+    requires={"both_evaluated": "problem in individual.fitness_store and problem in other.fitness_store"},
+    ensures={
+        "strict_comparison_of_the_recorded_aggregates": "result == (individual.fitness_store[problem].maximizing_aggregate > "
+        "other.fitness_store[problem].maximizing_aggregate)",
+    },
+    modifies=[],
+    allocates=False,
+    props=["C12", "C16"],
+)
+R.contract(
+    "best_individual",
+    file=HLP,
+    params=dict(population="list[Individual]", problem="Problem"),
+    returns="Individual",
+    requires={
+        "non_empty": "len(population) >= 1",
+        "all_evaluated": "forall(0, len(population), lambda k: problem in population[k].fitness_store)",
+    },
+    ensures={
+        "member": "exists(0, len(population), lambda e: same(result, population[e]))",
+        "no_member_is_better": "forall(0, len(population), lambda e: "
+        "result.fitness_store[problem].maximizing_aggregate >= population[e].fitness_store[problem].maximizing_aggregate)",
+    },
+    modifies=[],
+    allocates=False,
+    props=["C12", "C16"],
+)
+
 ELI = "geneticengine/algorithms/gp/operators/elitism.py"
 R.cls("ElitismStep", bases=["GeneticStep"], fields={}, file=ELI)
 DISTINCT = {}
